@@ -5,6 +5,8 @@
 // reader-cache cleanup, obsolete file cleanup). Monitors: a registry of held snapshots/readers consulted inside
 // the delete/unmap seams, per-snapshot stability, real-time visibility + chain order of snapshot contents,
 // porcupine linearizability of the commit/acquire history, fault capture, and the race detector.
+// rollup.go: stores with two rollup target intervals and partly completed rollup jobs; the engine's own ledger of
+// unfinished (table, interval) rollups is consulted in the delete seam and cross-checked against lindb's marks.
 package main
 
 import (
@@ -39,7 +41,12 @@ func main() {
 	c.SetRule("one case = one concurrent run (child process) of readers/flushers/compactor on one family with seeded shapes and " +
 		"seeded micro-delays at the list/remove/unmap seams; non-trivial = run in which at least one snapshot was still open " +
 		"when the family's current version changed through a compaction AND a table delete was attempted while a snapshot was open; " +
-		"distinct by run index (each run has its own seed-derived configuration and schedule)")
+		"distinct by run index (each run has its own seed-derived configuration and schedule); a third of the concurrent runs has two rollup " +
+		"target intervals with real rollup jobs running, one interval held back (target store absent / rollup merge failing) until half of the flushes are committed; " +
+		"directed partial-rollup runs (8 shapes = configuration order x which interval completes first x cause, seeded sizes/triggers/reopen/reader) are " +
+		"non-trivial when a table was rolled up for a strict subset of the intervals, a compaction took it out of the version and clean-ups ran afterwards")
+	c.Assume("a rollup of (table, interval) counts as completed only when the target family of that interval shows every token flushed into the table; " +
+		"the target family installs its output before the source family deletes the mark, so the ledger never calls a table pending that lindb may delete")
 	c.Assume("schedules are sampled, not enumerated; goroutine interleavings differ from run to run")
 	c.Assume("a table may be unmapped by the reader cache while a snapshot merely names it (it is re-mapped on the next read); only an unmap while a reader obtained from a still-open snapshot is outstanding, or a delete of a file named by an open snapshot / pending rollup, is a violation")
 	nRuns := c.Pick(24, 400)
@@ -49,11 +56,15 @@ func main() {
 	raceOut := make([]string, nRuns)
 	nStress := nRuns
 	nRuns += c.Pick(6, 60) // directed schedules (release parked before the removal from the active versions)
+	nDirected := nRuns
+	nRuns += c.Pick(16, 160) // directed partial-rollup schedules (rollup.go): 8 shapes (order x which interval completes x cause) each
 	results = make([]*runResult, nRuns)
 	raceOut = make([]string, nRuns)
 	core.Parallel(nRuns, 6, func(i int) {
 		runIdx := i
-		if i >= nStress {
+		if i >= nDirected {
+			runIdx = rollupBase + (i - nDirected)
+		} else if i >= nStress {
 			runIdx = directedBase + (i - nStress)
 		}
 		dir := filepath.Join(scratch, fmt.Sprintf("r%04d", i))
@@ -124,6 +135,20 @@ func main() {
 		}
 	}
 	c.Count("runs_under_race_detector", raceRuns)
+	// the partial-rollup schedules must have been reached: both positions of the completed interval, both causes, and
+	// at least one table that only its pending rollup kept on disk through a clean-up
+	for _, need := range []string{
+		"rollup.partly_rolled_tables.later_listed_interval_done_earlier_listed_pending",
+		"rollup.partly_rolled_tables.earlier_listed_interval_done_later_listed_pending",
+		"rollup.partly_rolled_tables.because_target-store-absent",
+		"rollup.partly_rolled_tables.because_rollup-work-fails",
+		"rollup.cleanups_survived_by_a_partly_rolled_table_outside_every_version",
+		"rollup.tables_rolled_up_to_every_interval_at_the_end",
+	} {
+		if c.Counter(need) == 0 {
+			c.Inconclusive("partial-rollup schedules: %s was never observed", need)
+		}
+	}
 	if raceBin == "" {
 		c.Assume("no -race variant available in this invocation")
 	}
